@@ -188,6 +188,11 @@ pub(crate) struct SolverState {
 
     /// Activity score per package.
     name_activity: Vec<f32>,
+
+    /// The decision level at which the current [`Solver::run_sat`] started. The
+    /// decisions up to this level are the solution found before a soft
+    /// requirement is tried and are never undone by that run.
+    starting_level: u32,
 }
 
 impl<D: DependencyProvider> Solver<D, NowOrNeverRuntime> {
@@ -405,6 +410,7 @@ impl<D: DependencyProvider, RT: AsyncRuntime> Solver<D, RT> {
         #[cfg(feature = "verif-hooks")]
         verif::run_sat(root_solvable, starting_level);
 
+        self.state.starting_level = starting_level;
         let mut level = starting_level;
 
         loop {
@@ -429,7 +435,8 @@ impl<D: DependencyProvider, RT: AsyncRuntime> Solver<D, RT> {
                     "╤══ Install {} at level {level}",
                     root_solvable.display(self.provider())
                 );
-                self.state
+                if self
+                    .state
                     .decision_tracker
                     .try_add_decision(
                         Decision::new(
@@ -441,7 +448,14 @@ impl<D: DependencyProvider, RT: AsyncRuntime> Solver<D, RT> {
                         ),
                         level,
                     )
-                    .expect("already decided");
+                    .is_err()
+                {
+                    // Only possible when the run for a soft requirement was restarted: a
+                    // clause learnt in the meantime already rules the solvable out on top of
+                    // the decisions this run started from.
+                    assert_ne!(starting_level, 0, "already decided");
+                    return Ok(false);
+                }
 
                 // Add the clauses for the root solvable.
                 let conflicting_clauses = self.async_runtime.block_on(
@@ -498,6 +512,13 @@ impl<D: DependencyProvider, RT: AsyncRuntime> Solver<D, RT> {
             tracing::trace!("Level {}: Resolving dependencies", level);
             level = self.resolve_dependencies(level)?;
             tracing::trace!("Level {}: Done resolving dependencies", level);
+
+            if level == starting_level {
+                // A conflict undid everything this run decided, including the installation of
+                // `root_solvable` itself. Start over on top of the decisions this run started
+                // from, with the clause that was learnt from the conflict.
+                continue;
+            }
 
             // We have a partial solution. E.g. there is a solution that satisfies all the
             // clauses that have been added so far.
@@ -1442,8 +1463,11 @@ impl<D: DependencyProvider, RT: AsyncRuntime> Solver<D, RT> {
             );
         }
 
-        // Should revert at most to the root level
-        let target_level = back_track_to.max(1);
+        // Should revert at most to the root level, and never below the level the current
+        // run started from: the decisions below it are the solution that was found before
+        // a soft requirement was tried, which a failing soft requirement must leave
+        // untouched. The learnt clause is still unit at that level.
+        let target_level = back_track_to.max(self.state.starting_level).max(1);
         self.state.decision_tracker.undo_until(target_level);
 
         self.decay_activity_scores();
